@@ -1,6 +1,7 @@
 package main
 
 import (
+	"go/token"
 	"fmt"
 	"go/types"
 	"regexp"
@@ -190,6 +191,28 @@ func runC06(c *Ctx) {
 			t := fg.tr.term(rs.State, rs.Ret.Results[0], 0)
 			c.Ob("C06-R3", "gasUsed() = initialGas - gas", c.Position(rs.Ret.Pos()), t == "(StateTransition#0.initialGas - StateTransition#0.gas)", "returns "+t)
 		}
+		// the price is one immutable value for the whole transaction: the EVM context gets a private copy and no
+		// instruction hands a shared integer to the stack / integer pool (where it would be mutated or recycled)
+		nc := c.Fn("core:NewEVMContext")
+		ngp := 0
+		for _, b := range nc.Blocks {
+			for _, ins := range b.Instrs {
+				if stI, ok := ins.(*ssa.Store); ok {
+					if fa, ok := stI.Addr.(*ssa.FieldAddr); ok && fieldName(fa) == "GasPrice" {
+						ngp++
+						okCopy := true
+						for _, r := range bigRoots(stI.Val) {
+							if _, isAlloc := r.(*ssa.Alloc); !isAlloc {
+								okCopy = false
+							}
+						}
+						c.Ob("C06-R3", "NewEVMContext gives the EVM a private copy of the gas price", c.Position(stI.Pos()), okCopy, "GasPrice: "+c.termOf(nc, stI.Val))
+					}
+				}
+			}
+		}
+		c.Ob("C06-R3", "NewEVMContext sets Context.GasPrice", c.FnPos(nc), ngp == 1, fmt.Sprintf("%d stores", ngp))
+		c.Extra["push_sites"] = vmPushOwnershipRule(c, "C06-R3")
 		// gasPrice field written only by the constructor
 		c.fieldWrittenOnlyIn("C06-R3", "core:StateTransition.gasPrice", map[string]bool{"core.NewStateTransition": true})
 		c.fieldWrittenOnlyIn("C06-R3", "core:StateTransition.initialGas", map[string]bool{"(*core.StateTransition).buyGas": true})
@@ -197,6 +220,70 @@ func runC06(c *Ctx) {
 	c.Min("C06-R3", 14)
 
 	c.Rule("C06-R4", "errors propagate to the block processor; receipt and cumulative gas bookkeeping", func() {
+		// "cannot pay the value" is communicated from the EVM entry points to TransitionDb by the identity of one
+		// sentinel error: the producer must return that very value (not a wrapped or reformatted error) wherever the
+		// transfer check fails, or the consumer's comparison silently stops matching and the block is accepted
+		nsent := 0
+		for _, name := range []string{"Call", "CallCode", "Create"} {
+			fn := c.Fn("core/vm:(*EVM)." + name)
+			for _, blk := range fn.Blocks {
+				iff, ok := blk.Instrs[len(blk.Instrs)-1].(*ssa.If)
+				if !ok {
+					continue
+				}
+				cond, neg := iff.Cond, false
+				if u, isNot := cond.(*ssa.UnOp); isNot && u.Op == token.NOT {
+					cond, neg = u.X, true
+				}
+				call, isCall := cond.(*ssa.Call)
+				if !isCall || !strings.HasSuffix(c.termOf(fn, call.Call.Value), ".CanTransfer") {
+					continue
+				}
+				fail := blk.Succs[1]
+				if neg {
+					fail = blk.Succs[0]
+				}
+				// the error produced on the failing branch: stored into the named result or returned directly
+				var errVal ssa.Value
+				for cur, steps := fail, 0; cur != nil && steps < 4; steps++ {
+					for _, ins := range cur.Instrs {
+						switch x := ins.(type) {
+						case *ssa.Store:
+							if isErrorType(x.Val.Type()) {
+								errVal = x.Val
+							}
+						case *ssa.Return:
+							if r := x.Results[len(x.Results)-1]; errVal == nil {
+								errVal = r
+							}
+						}
+					}
+					if len(cur.Succs) == 1 {
+						cur = cur.Succs[0]
+					} else {
+						cur = nil
+					}
+				}
+				nsent++
+				t := ""
+				if errVal != nil {
+					t = c.termOf(fn, errVal)
+				}
+				c.Ob("C06-R4", "EVM."+name+" reports an unaffordable value transfer with the sentinel vm.ErrInsufficientBalance itself", c.Position(call.Pos()), t == "vm.ErrInsufficientBalance", "returns "+t)
+			}
+		}
+		c.Ob("C06-R4", "unaffordable-transfer returns found in Call, CallCode and Create", "", nsent >= 3, fmt.Sprintf("%d", nsent))
+		td := c.Fn("core:(*StateTransition).TransitionDb")
+		ftd := c.Facts(td)
+		ncmp := 0
+		for _, rs := range ftd.AllReturns() {
+			if _, is := hasLit(rs.State, mustRe(` == vm\.ErrInsufficientBalance$`)); is {
+				ncmp++
+				t := ftd.tr.term(rs.State, rs.Ret.Results[len(rs.Ret.Results)-1], 0)
+				c.Ob("C06-R4", "TransitionDb turns vm.ErrInsufficientBalance into a transaction-level error (block invalid)", c.Position(rs.Ret.Pos()), t != "nil" && !strings.HasSuffix(t, "== nil"), "returns "+t)
+			}
+		}
+		c.Ob("C06-R4", "TransitionDb compares the VM error with the sentinel", c.FnPos(td), ncmp >= 1, fmt.Sprintf("%d return states", ncmp))
 		at := c.Fn("core:ApplyTransaction")
 		c.MustOnAccept("C06-R4", at, -1, false, []LitReq{
 			{Name: "sender recovery error rejects", Re: `^Transaction#0\.AsMessage\(.*\)#1 == nil$`},
